@@ -41,6 +41,7 @@ def gen_case(rng, tier):
             p["find"][m]["contra"] = {l: None for l in lnls}
     c["t"] = list(c["dists"])[0]
     c["bn"] = base == 2 and rng.random() < 0.3
+    c["leaf_override"] = rng.choice([None, None, "contra", "ipsi"])
     return c
 
 
@@ -49,6 +50,11 @@ def build(case):
     rng = random.Random(case["seed_params"])
     names = [n for n in m.get_params() if n.split("_")[0] not in case["dists"]]
     m.set_params(**{n: gen.gen_value(rng) for n in names})
+    # the sides may also be parametrised directly (the class docstring allows it): the joint must use each side's own values
+    if case.get("leaf_override"):
+        side = m.contra if case["leaf_override"] == "contra" else m.ipsi
+        leaf_names = list(side.get_spread_params(as_dict=True))
+        side.set_params(**{n: gen.gen_value(rng) for n in leaf_names})
     return m
 
 
